@@ -40,6 +40,7 @@ SELFTEST = [
     {"mutation": "sample(.., mesh_n) instead of needed_extra_peers", "caught_by": "new/sample size = mesh_n - eligible fanout peers"},
     {"mutation": "publish(): self.fanout.clear() ", "caught_by": "who/mutable borrows of `fanout`"},
     {"mutation": "NEUTRAL: `let prior = self.fanout.remove(t).unwrap_or_default(); self.fanout.insert(t, prior.into_iter().chain(new).collect())`", "caught_by": "(silent, as intended)"},
+    {"mutation": "NEUTRAL: recipients / candidates / topic_hash renamed in filter_publish_candidates", "caught_by": "(silent: parameters by type, recipient set = returned local)"},
 ]
 
 # one-edit source variants for the thorough-tier sensitivity self-test (vrules/selftest.py); each must be reported
@@ -94,6 +95,18 @@ def carries_prior(body, e, depth=0):
     return out
 
 
+def _resolves_to_arg(prog, outer, mid, inner, up, idx):
+    """upvar `up` of closure `inner` (nested in closure `mid`, nested in fn `outer`) is bound to parameter idx of `outer`"""
+    x = gs.upvar_exprs(prog, mid, inner).get(up[1].lstrip("*"))
+    if x is None:
+        return False
+    x = gs.expand(mid, x)
+    if x[0] == "upvar":
+        y = gs.upvar_exprs(prog, outer, mid).get(x[1].lstrip("*"))
+        return y is not None and gs.is_arg(gs.expand(outer, y), idx)
+    return False
+
+
 def mut_sites(body):
     out = []
     for s in body.call_sites():
@@ -110,9 +123,12 @@ def check(ctx):
     prog = ctx.prog
     f = ctx.body(G, gs.BEH + r"filter_publish_candidates$")
     where_f = "%s:%d" % (f.file, f.line)
+    # parameters by type (their names are not consulted)
+    a_topic, a_cand = gs.arg_of_type(f, r"^&topic::TopicHash$"), gs.arg_of_type(f, r"^std::collections::HashSet<libp2p_identity::PeerId>$")
+    T = gs.argname(f, a_topic)
 
     # ------------------------------------------------------------------ arms
-    none_arm = lib.arm_entry(f, r"^discr\(std::collections::HashMap::get\(self\.mesh, topic_hash\)\)$", "None")
+    none_arm = lib.arm_entry(f, r"^discr\(std::collections::HashMap::get\(self\.mesh, %s\)\)$" % re.escape(T), "None")
     ctx.ob("arm", "floor:not-subscribed arm", len(none_arm) == 1, nontrivial=False, msg=str(none_arm))
     if not none_arm:
         return
@@ -167,7 +183,7 @@ def check(ctx):
             # receiver is the entry of *this* topic
             recv = gs.expand(f, e[2][0])
             keyed = [c for c in gs.calls(recv, r"HashMap::(entry|get_mut)$")]
-            ok = bool(keyed) and all(render(c[2][0]) == "self.fanout" and re.search(r"(^|\()topic_hash\)?$", render(c[2][1])) for c in keyed)
+            ok = bool(keyed) and all(render(c[2][0]) == "self.fanout" and any(gs.is_arg(y, a_topic) for y in mir.walk(c[2][1])) for c in keyed)
             ctx.ob("store", "stored under the published topic", ok, s.loc(), "key = %s" % [render(c[2][1])[-60:] for c in keyed])
             continue
         # in-place accessors are fine by themselves
@@ -178,7 +194,9 @@ def check(ctx):
         ctx.ob("store", "store happens on the not-subscribed arm", s.bb in in_arm, s.loc(), "fanout is only written when mesh.get(topic) is None")
 
     # ------------------------------------------------------------------ still-eligible prior fanout peers
-    rext = [s for s in f.call_sites(r"HashSet as std::iter::Extend>::extend$") if render(f.site_expr(s)[2][0]) == "recipients"]
+    # the recipient set is what the function returns on the selecting paths (identified by role)
+    ret_locals = {x[1] for _, e in gs.ret_exprs(f) for x in mir.walk(e) if x[0] == "local"}
+    rext = [s for s in f.call_sites(r"HashSet as std::iter::Extend>::extend$") if f.site_expr(s)[2][0][0] == "local" and f.site_expr(s)[2][0][1] in ret_locals]
     prior_ext = []
     new_ext = []
     for s in rext:
@@ -193,7 +211,7 @@ def check(ctx):
                      "recipients.extend(fanout_peers) on every path of the not-subscribed arm")
     for s in prior_ext:
         a1 = gs.expand(f, f.site_expr(s)[2][1])
-        got = [c for c in gs.calls(a1, r"HashMap::get$") if render(c[2][0]) == "self.fanout" and render(c[2][1]) == "topic_hash"]
+        got = [c for c in gs.calls(a1, r"HashMap::get$") if render(c[2][0]) == "self.fanout" and gs.is_arg(c[2][1], a_topic)]
         ctx.ob("eligible", "prior peers come from fanout[topic]", bool(got), s.loc(), render(a1)[:160])
         # closure: f.iter().filter(|p| candidates.contains(p)).copied().collect()
         mp = [c for c in gs.calls(a1, r"Option::map$")]
@@ -213,8 +231,8 @@ def check(ctx):
                     req = gs.truth_requirements(inner)
                     msg = "kept iff %s" % [(p, render(x)[:80]) for x, p in req]
                     ok = (len(req) == 1 and req[0][1] is True and req[0][0][0] == "call" and re.search(r"HashSet::contains$", strip_generics(req[0][0][1]))
-                          and req[0][0][2][0][0] == "upvar" and req[0][0][2][0][1].lstrip("*") == "candidates"
-                          and render(ups.get("candidates", ("unknown", "?"))) == "candidates"
+                          and req[0][0][2][0][0] == "upvar"
+                          and _resolves_to_arg(prog, f, cl, inner, req[0][0][2][0], a_cand)
                           and gs.has_call(fc[2][0], r"BTreeSet::iter$"))
         ctx.ob("eligible", "prior fanout peers kept iff still candidates", ok, s.loc(), msg)
 
@@ -235,7 +253,7 @@ def check(ctx):
     if need_expr is not None:
         r = render(need_expr)
         ok = need_expr[0] == "call" and re.search(r"saturating_sub$", strip_generics(need_expr[1])) \
-            and re.match(r"^libp2p_gossipsub::config::Config::mesh_n_for_topic\(self\.config, topic_hash\)$", render(need_expr[2][0])) is not None \
+            and re.match(r"^libp2p_gossipsub::config::Config::mesh_n_for_topic\(self\.config, %s\)$" % re.escape(T), render(need_expr[2][0])) is not None \
             and gs.has_call(need_expr[2][1], r"Vec::len$") and fanout_derived(f, need_expr[2][1])
         ctx.ob("new", "needed = mesh_n(topic) - |eligible fanout peers| (saturating)", ok, where_f, r[:200])
     starts = gs.edge_targets(need_edges)
@@ -251,7 +269,7 @@ def check(ctx):
         e = f.site_expr(s)
         ok = need_expr is not None and render(e[2][-1]) == render(need_expr)
         ctx.ob("new", "sample size = mesh_n - eligible fanout peers", ok, s.loc(), "amount = %s" % render(e[2][-1])[:160])
-        ctx.ob("new", "sampled from the candidates", gs.has_call(e[2][0], r"IntoIterator>::into_iter$|HashSet::iter$") and any(x[0] == "arg" and x[2] == "candidates" for x in mir.walk(e[2][0])),
+        ctx.ob("new", "sampled from the candidates", gs.has_call(e[2][0], r"IntoIterator>::into_iter$|HashSet::iter$") and any(gs.is_arg(x, a_cand) for x in mir.walk(e[2][0])),
                s.loc(), render(e[2][0])[:160])
     for s in stores:
         e = f.site_expr(s)
